@@ -97,8 +97,8 @@ def sig_repeated(w):
 
 
 def sig_empty_word(w):
-    """open finding empty-word-crash: the command line contains an empty word and IndexError escaped DoitMain.run
-    (process_args evaluates arg[0] outside the try block) instead of `ERROR ... exit 3`"""
+    """F-C12-empty-word-crash (fixed in /repo by 0ab6253; only a label in replays): the command line contains an empty
+    word and IndexError escaped DoitMain.run, as the pinned model (Sel.pinnedCliArgs) says"""
     return bool(w.get('empty_word_crash'))
 
 
@@ -176,14 +176,10 @@ def evaluate(cases, workdir, want_cli=True):
             # the command line loses its name=value words before selection (Sel.planCli)
             head = m['cli']
             exp_exit = 0 if head['sel'][0] == 'ok' else 3
-            if m.get('cli_crash'):
-                exp_exit = ['exc', 'IndexError']      # process_args on an empty word (open finding empty-word-crash)
             cli_ok = True
             if cli['exit'] != exp_exit:
                 cli_ok = False
                 r['div'].append('cli: exit %s, model %s (%s)' % (cli['exit'], exp_exit, cli['error']))
-            elif exp_exit == ['exc', 'IndexError']:
-                pass
             elif exp_exit == 0:
                 want = list(head['closure'])
                 if cli.get('actions_only'):
@@ -215,7 +211,7 @@ def evaluate(cases, workdir, want_cli=True):
             if mon:
                 r['viol'].append({'tier': 'cli', 'failed': mon, 'impl': {k: cli[k] for k in ('exit', 'error', 'processed', 'started', 'ran')},
                                   'expected': head, 'reinit': reinit, 'impl_matches_head': cli_ok and api_head_ok,
-                                  'empty_word_crash': bool(m.get('cli_crash')) and cli['exit'] == ['exc', 'IndexError'],
+                                  'empty_word_crash': bool(m.get('pinned_cli_crash')) and cli['exit'] == ['exc', 'IndexError'],
                                   'impl_matches_pinned': api.get('sel') == (m.get('pinned') or {}).get('sel')})
     return res
 
@@ -380,7 +376,7 @@ def violation_kind(r):
     if not r['viol']:
         return None
     v = r['viol'][-1] if any(x['tier'] == 'cli' for x in r['viol']) else r['viol'][0]
-    return (sig_empty_word(v), v['tier'], tuple(v['failed']))
+    return (False, v['tier'], tuple(v['failed']))
 
 
 def shrink(case, workdir, budget=60):
@@ -563,7 +559,9 @@ def replay(ctx, data):
     print('names a task again:', bool(r['model'].get('reinit')))
     for v in r['viol']:
         print('property fails (%s tier): %s%s' % (v['tier'], v['failed'],
-                                                    '  [behaves like the code before dcfe778 (F-C12b)]' if sig_repeated(v) else ''))
+                                                    '  [behaves like the code before dcfe778 (F-C12b)]' if sig_repeated(v)
+                                                    else '  [behaves like the code before 0ab6253 (empty word)]'
+                                                    if sig_empty_word(v) else ''))
     for d in r['div']:
         print('divergence:', d)
     return not r['viol']
